@@ -183,6 +183,14 @@ def run(tier, seed):
                     lo, hi = ri.min(), ri.max()
                     e2 = me.util.adjust_intervals(ei, None, lo, hi)[0]
                     record("chord.seg", call(lambda: (me.chord.overseg(ri, e2), me.chord.underseg(ri, e2), me.chord.seg(ri, e2))), (ri, e2), {})
+                    # the segmentation scores called directly on annotations that do NOT span the same time range (no adjust_intervals)
+                    # and on a reference with a gap: both pass validation, and every term dur - max overlap stays within [0, dur]
+                    e3 = ei + rng.choice([-2.0, -0.75, 0.5, 3.0])
+                    e3 = e3 - min(0.0, e3.min())
+                    record("chord.seg", call(lambda: (me.chord.overseg(ri, e3), me.chord.underseg(ri, e3), me.chord.seg(ri, e3))), (ri, e3), {"family": "unaligned spans"})
+                    if len(ri) > 2:
+                        r3 = np.delete(ri, rng.randint(1, len(ri) - 2), axis=0)
+                        record("chord.seg", call(lambda: (me.chord.overseg(r3, e3), me.chord.underseg(r3, e3), me.chord.seg(r3, e3))), (r3, e3), {"family": "reference with a gap"})
     # fixed witnesses of the input classes of the recorded findings (so that every run exercises them, whatever the seed)
     w_cem = (np.array([6.5, 6.5, 6.5, 7.5, 8.5]), np.array([6.5, 8.5]))             # Cemgil 1.14 / 1.2 with a triplicated beat
     w_ig = (np.array([6.0, 6.5, 7.0, 7.0]), np.array([6.0, 6.0, 9.0]))               # information gain NaN with duplicated beats
